@@ -2,7 +2,7 @@
    Only statements, closed by [exact], and their assumptions. *)
 From Coq Require Import List NArith Bool.
 From HV Require Import CharRef.CRModel CharRef.CRSpec CharRef.CRTable CharRef.CRRun CharRef.CRNamed
-  CharRef.CRNumeric CharRef.CRTheorems CharRef.CRInst CharRef.WhatwgEntities Gen.GenEntities Gen.GenC1.
+  CharRef.CRNumeric CharRef.CRTheorems CharRef.CRGenTable CharRef.CRInst CharRef.WhatwgEntities Gen.GenEntities Gen.GenC1.
 Import ListNotations.
 Open Scope N_scope.
 
